@@ -39,6 +39,9 @@ def run(ctx):
         yield "circle-hole", Primitive.square(side=6) - Primitive.circle(radius=1, ndivangle=4)
         big = SimpleShape(JordanCurve.from_ctrlpoints([[(float(x), float(y)) for x, y in c] for c in rounded([(-9, -9), (9, -8), (8, 9), (-8, 8)], cubic=True)]))
         yield "cubic-with-hole", ConnectedShape([big, ~Primitive.square(side=2)])
+        drop = lambda: JordanCurve.from_ctrlpoints([[(0.0, 0.0), (3.0, 2.0), (-3.0, 2.0), (0.0, 0.0)]])
+        yield "teardrop-one-cubic", SimpleShape(drop())
+        yield "teardrop-hole", ConnectedShape([Primitive.square(side=10.0, center=(0.0, 1.0)), SimpleShape(drop().invert())])
         yield "two-components", DisjointShape([Primitive.circle(radius=1, center=(-5, 0), ndivangle=4), Primitive.square(side=2, center=(5, 0))])
         # an unbounded component together with bounded ones: the complement of a ring = outside + island
         yield "outside-plus-island", ~(Primitive.square(side=8) - Primitive.square(side=4))
